@@ -976,6 +976,12 @@ func (g *G) regexpCompile(src *StrV) (Value, *IfaceV) {
 		ro.re = re
 		return cell, nil
 	}
+	// regexp.Compile rejects every pattern that is not valid UTF-8 (syntax.ErrInvalidUTF8): that
+	// part of the verdict is decided exactly, by forking on the byte classes
+	if !g.validUTF8Fork(src.Bytes()) {
+		m.res.Intrinsics["regexp.Compile(symbolic: invalid UTF-8 decided exactly)"] = true
+		return (*Cell)(nil), m.errorsNew(m.strConst("error parsing regexp: invalid UTF-8"))
+	}
 	m.pathAbstract = true
 	okT := m.ctx.UF(fmt.Sprintf("rx_ok_%d", len(src.Bytes())), SBool, 0, src.Bytes())
 	m.res.Intrinsics["regexp.Compile(symbolic: uninterpreted rx_ok)"] = true
@@ -983,6 +989,27 @@ func (g *G) regexpCompile(src *StrV) (Value, *IfaceV) {
 		return cell, nil
 	}
 	return (*Cell)(nil), m.errorsNew(m.strConst("error parsing regexp"))
+}
+
+// validUTF8Fork walks a (possibly symbolic) byte string like utf8.ValidString, forking on byte classes.
+func (g *G) validUTF8Fork(bs []*Term) bool {
+	c := g.m.ctx
+	for i := 0; i < len(bs); {
+		if bs[i].IsConst() && bs[i].Val < 0x80 {
+			i++
+			continue
+		}
+		if g.m.cond2("utf8-ascii", c.Ult(bs[i], c.BV(8, 0x80))) {
+			i++
+			continue
+		}
+		_, w := g.decodeRuneSym(bs[i:])
+		if w == 1 {
+			return false
+		}
+		i += w
+	}
+	return true
 }
 
 func inRegexpCompile(g *G, fn *ssa.Function, args []Value) Value {
